@@ -519,6 +519,13 @@ class Engine:
             return VOpaque(tag, z3.Const(self.fresh_name(hint), U))
         if ty.startswith("class:"):
             return VClass(ty[6:])
+        if ty.startswith("either[") and ty.endswith("]"):
+            # untagged union: one path per alternative
+            alts = _split_top(ty[7:-1])
+            for i, a in enumerate(alts[:-1]):
+                if self.branch_fresh("%s_is_alt%d" % (hint, i)):
+                    return self.fresh(a, hint)
+            return self.fresh(alts[-1], hint)
         raise OutOfSubset("unknown type %r" % ty)
 
     def symlist(self, n, elemty, hint):
@@ -733,6 +740,9 @@ class Engine:
                 self.at_hits.add(key)
                 if act[0] == "ghost":
                     self.ghost[act[1]] = self.eval_str(act[2], fr)
+                elif act[0] == "lemma":
+                    # instantiate a (separately proved) lemma at the current values
+                    self.world.use_lemma(self, act[1], act[2], fr)
                 else:
                     nm = "%s.at[%s][%s]" % (self.cur_label, key[6:][:40], act[1][:50])
                     self.oblige(nm, self.world_clause(act[1], fr), kind="assert", site=st.lineno, note=act[1])
